@@ -63,19 +63,23 @@ type c08Res struct {
 
 type c08Opts struct {
 	mr  int    // 0 = unlimited
-	lim string // "inf", "mid", "zero"
-	err bool
+	lim string // "inf", "mid" (from the model, or a third through the scan), "near" (the third best distance of the scan), "zero"
+	err int // 0: none; k: the k-th permitted error of c08Errs
 	inc bool
 }
 
+// permitted errors (radians) of the option combinations
+var c08Errs = []float64{0, 0.15, 0.6}
+
 func (o c08Opts) String() string {
-	return fmt.Sprintf("maxResults=%d limit=%s maxError=%v includeInteriors=%v", o.mr, o.lim, o.err, o.inc)
+	return fmt.Sprintf("maxResults=%d limit=%s maxError=%grad includeInteriors=%v", o.mr, o.lim, c08Errs[o.err], o.inc)
 }
 
 type c08Variant struct {
 	kind  string // pt, edge, cell, idx
 	model bool   // lt/le/lc apply
 	mk    func() s2.VerifDistanceTarget
+	pts   []s2.Point // vertices of the target (cell: its four vertices)
 }
 
 type c08Ctx struct {
@@ -88,10 +92,12 @@ type c08Ctx struct {
 	far     bool
 	mid     s1.ChordAngle
 	hasMid  bool
-	maxErr  s1.ChordAngle
+	near    s1.ChordAngle // a small limit taken from the exhaustive scan: small search disc
+	hasNear bool
 	failed  map[string]bool
 	covBad  bool // optimized results are not judged: the top-level covering lost index cells
 	covDone bool
+	capBad  bool // this variant's capBound does not bound the target: finite-limit optimized searches are not judged
 	optRuns int
 	desc    string
 }
@@ -186,11 +192,13 @@ func (x *c08Ctx) options(o c08Opts, brute bool) *s2.EdgeQueryOptions {
 	switch o.lim {
 	case "mid":
 		q.DistanceLimit(x.mid)
+	case "near":
+		q.DistanceLimit(x.near)
 	case "zero":
 		q.DistanceLimit(x.zero())
 	}
-	if o.err {
-		q.MaxError(x.maxErr)
+	if o.err > 0 {
+		q.MaxError(s1.ChordAngleFromAngle(s1.Angle(c08Errs[o.err])))
 	}
 	q.IncludeInteriors(o.inc)
 	q.UseBruteForce(brute)
@@ -221,8 +229,9 @@ func (x *c08Ctx) find(v c08Variant, o c08Opts, brute bool) ([]c08Res, s2.VerifQu
 		if s2.VerifEdgeQueryLastPath(q) == "optimized" {
 			x.optRuns++
 			x.o.Count("optimized_queries")
-			if !x.covDone {
-				x.checkCovering(s2.VerifEdgeQueryCovering(q))
+			// the covering is computed lazily: a query that returns early has none yet
+			if cov := s2.VerifEdgeQueryCovering(q); !x.covDone && len(cov) > 0 {
+				x.checkCovering(cov)
 			}
 		} else {
 			x.o.Count("below_threshold_queries")
@@ -322,9 +331,17 @@ func (x *c08Ctx) gid(r c08Res) int {
 }
 
 // wellFormed: sorted, duplicate-free, within the result limit and the distance limit.
-func (x *c08Ctx) wellFormed(rs []c08Res, o c08Opts, v c08Variant, side string) {
+func (x *c08Ctx) wellFormed(rs []c08Res, o c08Opts, v c08Variant, side string) bool {
 	k := x.kindName() + "/" + v.kind + "/" + side
 	seen := map[[2]int32]bool{}
+	for _, r := range rs {
+		// a distance is a chord angle in [0, 4] (4 + a few ulps is what updateMinDistance
+		// returns for exactly antipodal points; that rounding is not judged here)
+		if !(r.D >= 0 && r.D <= s1.StraightChordAngle+1e-9) {
+			x.fail("eq/invalid-distance/"+x.kindName()+"/"+v.kind, "result %v has a distance outside [0, 4] (%s path), %v", r, side, o)
+			return false
+		}
+	}
 	for i, r := range rs {
 		if i > 0 && x.less(r.D, rs[i-1].D) {
 			x.fail("eq/sorted/"+k, "result %d (%v) is better than result %d (%v) with %v", i, r, i-1, rs[i-1], o)
@@ -351,6 +368,10 @@ func (x *c08Ctx) wellFormed(rs []c08Res, o c08Opts, v c08Variant, side string) {
 			if !x.less(r.D, x.mid) {
 				x.fail("eq/limit/"+k, "result %v not within the distance limit %v, %v", r, float64(x.mid), o)
 			}
+		case "near":
+			if !x.less(r.D, x.near) {
+				x.fail("eq/limit/"+k, "result %v not within the distance limit %v, %v", r, float64(x.near), o)
+			}
 		case "zero":
 			x.fail("eq/limit-zero/"+k, "result %v although the distance limit is zero, %v", r, o)
 		}
@@ -358,6 +379,7 @@ func (x *c08Ctx) wellFormed(rs []c08Res, o c08Opts, v c08Variant, side string) {
 	if o.mr > 0 && len(rs) > o.mr {
 		x.fail("eq/maxresults/"+k, "%d results with %v", len(rs), o)
 	}
+	return true
 }
 
 func c08SameDist(a, b []c08Res) bool {
@@ -392,11 +414,11 @@ func c08Show(rs []c08Res) string {
 }
 
 // withinError: len equal and every distance between the exact optimum and optimum + maxError.
-func (x *c08Ctx) withinError(rs, exact []c08Res) (bool, string) {
+func (x *c08Ctx) withinError(rs, exact []c08Res, o c08Opts) (bool, string) {
 	if len(rs) != len(exact) {
 		return false, fmt.Sprintf("%d results, exhaustive exact scan has %d", len(rs), len(exact))
 	}
-	e := x.maxErr.Angle().Radians()
+	e := s1.ChordAngleFromAngle(s1.Angle(c08Errs[o.err])).Angle().Radians()
 	for i := range rs {
 		a, b := rs[i].D.Angle().Radians(), exact[i].D.Angle().Radians()
 		if x.far {
@@ -414,7 +436,7 @@ func (x *c08Ctx) withinError(rs, exact []c08Res) (bool, string) {
 
 // model: position windows, limit classification and completeness.
 func (x *c08Ctx) model(rs []c08Res, o c08Opts, v c08Variant, side, class string) {
-	if !v.model || x.c.Lt == nil {
+	if !v.model || x.c.Lt == nil || o.lim == "near" {
 		return
 	}
 	k := x.kindName() + "/" + v.kind + "/" + side + "/" + class
@@ -508,30 +530,53 @@ func (x *c08Ctx) class(o c08Opts, fl s2.VerifQueryFlags) string {
 	if fl.AvoidDuplicates {
 		return "dup"
 	}
-	if o.lim == "mid" {
+	if o.lim == "mid" || o.lim == "near" {
 		return "lim"
 	}
 	return "all"
 }
 
+// checkCapBound: distanceTarget.capBound "returns a Cap that bounds the set of points whose
+// distance to the target is distance.zero()" - the target itself for closest-edge queries,
+// its antipodal image for furthest-edge queries.  The optimized search derives its search
+// disc from it whenever the distance limit is finite.
+func (x *c08Ctx) checkCapBound(v c08Variant) {
+	x.capBad = false
+	cb := s2.VerifTargetCapBound(v.mk())
+	for _, p := range v.pts {
+		if x.far {
+			p = s2.Point{Vector: p.Mul(-1)}
+		}
+		if d := float64(cb.Center().Distance(p)); d > float64(cb.Radius())+1e-13 {
+			x.capBad = true
+			x.fail("eq/capbound/"+x.kindName()+"/"+v.kind, "capBound() = %v does not contain the point %v of the zero-distance set of the target (%.17g rad from its centre)", cb, p.Vector, d)
+			return
+		}
+	}
+}
+
 func (x *c08Ctx) runVariant(v c08Variant) {
 	kn := x.kindName() + "/" + v.kind
+	x.checkCapBound(v)
 	incs := []bool{true}
 	if x.hasPoly {
 		incs = []bool{false, true}
 	}
 	lims := []string{"inf", "zero"}
 	if x.hasMid {
-		lims = []string{"inf", "mid", "zero"}
+		lims = append(lims, "mid")
+	}
+	if x.hasNear {
+		lims = append(lims, "near")
 	}
 	for _, inc := range incs {
 		for _, lim := range lims {
 			for _, mr := range []int{1, 2, 3, 0} {
-				o0 := c08Opts{mr, lim, false, inc}
+				o0 := c08Opts{mr, lim, 0, inc}
 				exact, _ := x.find(v, o0, true) // exhaustive scan, no permitted error
 				x.wellFormed(exact, o0, v, "brute")
 				cl := "all"
-				if lim == "mid" {
+				if lim == "mid" || lim == "near" {
 					cl = "lim"
 				}
 				x.model(exact, o0, v, "brute", cl)
@@ -539,26 +584,51 @@ func (x *c08Ctx) runVariant(v c08Variant) {
 				if v.kind == "cell" && x.c.Fz != nil && mr == 0 && lim == "inf" {
 					x.faceZero(exact, v, "brute")
 				}
-				for _, er := range []bool{false, true} {
-					o := c08Opts{mr, lim, er, inc}
+				for ei := range c08Errs {
+					er := ei > 0
+					o := c08Opts{mr, lim, ei, inc}
 					if er {
 						// the scan with a permitted error is itself only approximate
 						b, _ := x.find(v, o, true)
-						x.wellFormed(b, o, v, "brute")
-						if ok, why := x.withinError(b, exact); !ok {
-							x.fail("eq/maxerror/"+kn+"/brute", "%s, %v", why, o)
+						if x.wellFormed(b, o, v, "brute") {
+							if ok, why := x.withinError(b, exact, o); !ok {
+								x.fail("eq/maxerror/"+kn+"/brute", "%s, %v", why, o)
+							}
+							x.interiors(b, o, v, "brute")
 						}
-						x.interiors(b, o, v, "brute")
 					}
 					opt, fl := x.find(v, o, false)
 					if x.covBad {
 						x.o.Count("masked_by_incomplete_covering")
 						continue
 					}
+					// a wrong cap bound misplaces the search disc, which is used whenever the limit is
+					// finite - also after maxResults = 1 has tightened an infinite limit
+					if x.capBad && (lim == "mid" || lim == "near" || mr == 1) {
+						x.o.Count("masked_by_wrong_capbound")
+						continue
+					}
 					class := x.class(o, fl)
-					x.wellFormed(opt, o, v, "opt")
+					if !x.wellFormed(opt, o, v, "opt") {
+						continue
+					}
 					usesErr := er && (v.kind == "idx" || mr == 1)
+					if class == "dup" {
+						// the search had to avoid duplicates explicitly (testedEdges): one key for this mode
+						ok := true
+						why := ""
+						if usesErr {
+							ok, why = x.withinError(opt, exact, o)
+						} else if !c08Same(opt, exact) {
+							ok, why = false, "differs from the exhaustive scan"
+						}
+						if !ok {
+							x.fail("eq/avoid-duplicates/"+kn, "optimized search with avoidDuplicates: %s; optimized %s, exhaustive scan %s, %v", why, c08Show(opt), c08Show(exact), o)
+							continue
+						}
+					}
 					switch {
+					case class == "dup":
 					case !usesErr && mr != 1:
 						if !c08Same(opt, exact) {
 							x.fail("eq/opt-vs-brute/"+kn+"/"+class, "optimized search returns %s, the exhaustive scan %s, %v", c08Show(opt), c08Show(exact), o)
@@ -570,7 +640,7 @@ func (x *c08Ctx) runVariant(v c08Variant) {
 							continue
 						}
 					default:
-						if ok, why := x.withinError(opt, exact); !ok {
+						if ok, why := x.withinError(opt, exact, o); !ok {
 							x.fail("eq/maxerror/"+kn+"/"+class, "optimized search: %s, %v, optimized %s exact scan %s", why, o, c08Show(opt), c08Show(exact))
 							continue
 						}
@@ -585,7 +655,7 @@ func (x *c08Ctx) runVariant(v c08Variant) {
 				}
 			}
 			// Distance() is the first result
-			o1 := c08Opts{1, lim, false, inc}
+			o1 := c08Opts{1, lim, 0, inc}
 			first, _ := x.find(v, o1, true)
 			want := x.infinity()
 			if len(first) > 0 {
@@ -595,10 +665,10 @@ func (x *c08Ctx) runVariant(v c08Variant) {
 				side := "opt"
 				if brute {
 					side = "brute"
-				} else if x.covBad {
-					continue
+				} else if x.covBad || x.capBad {
+					continue // Distance() is a maxResults = 1 search
 				}
-				q := x.query(c08Opts{0, lim, false, inc}, brute)
+				q := x.query(c08Opts{0, lim, 0, inc}, brute)
 				t := v.mk()
 				if brute {
 					s2.VerifTargetSetUseBruteForce(t, true)
@@ -622,7 +692,7 @@ func (x *c08Ctx) faceZero(rs []c08Res, v c08Variant, side string) {
 			continue
 		}
 		if x.c.Fz[g] == 1 && r.D != 0 {
-			x.fail("eq/model-face/closest/cell/"+side, "edge (%d,%d) has an endpoint strictly inside the face cell but distance %.17g", r.S, r.E, float64(r.D))
+			x.fail("eq/model-face/closest/cell/"+side, "edge (%d,%d) has an endpoint strictly inside the face cell or properly crosses its boundary (exact model) but distance %.17g", r.S, r.E, float64(r.D))
 		}
 		if x.c.Fz[g] == -1 && r.D == 0 {
 			x.fail("eq/model-face/closest/cell/"+side, "point (%d,%d) is strictly outside the face cell but at distance 0", r.S, r.E)
@@ -632,7 +702,7 @@ func (x *c08Ctx) faceZero(rs []c08Res, v c08Variant, side string) {
 
 // pred evaluates the threshold predicate of the query kind with a fresh query.
 func (x *c08Ctx) pred(v c08Variant, inc, brute, conservative bool, limit s1.ChordAngle) bool {
-	q := x.query(c08Opts{0, "inf", false, inc}, brute)
+	q := x.query(c08Opts{0, "inf", 0, inc}, brute)
 	t := v.mk()
 	if brute {
 		s2.VerifTargetSetUseBruteForce(t, true)
@@ -655,16 +725,16 @@ func (x *c08Ctx) predicates(v c08Variant, inc bool) {
 	if x.far {
 		name, cname = "IsDistanceGreater", "IsConservativeDistanceGreaterOrEqual"
 	}
-	best, _ := x.find(v, c08Opts{1, "inf", false, inc}, true)
+	best, _ := x.find(v, c08Opts{1, "inf", 0, inc}, true)
 	for _, brute := range []bool{true, false} {
 		side := "opt"
 		if brute {
 			side = "brute"
-		} else if x.covBad {
+		} else if x.covBad || x.capBad {
 			continue
 		}
 		if x.hasMid {
-			within, _ := x.find(v, c08Opts{0, "mid", false, inc}, true)
+			within, _ := x.find(v, c08Opts{0, "mid", 0, inc}, true)
 			got := x.pred(v, inc, brute, false, x.mid)
 			if got != (len(within) > 0) {
 				x.fail("eq/predicate/"+kn+"/"+side, "%s(limit) = %v but the exhaustive scan finds %d edges within the limit %.17g (interiors %v)", name, got, len(within), float64(x.mid), inc)
@@ -733,7 +803,7 @@ func opEQ(raw json.RawMessage, o *Out) {
 	if err := json.Unmarshal(raw, &c); err != nil {
 		panic(err)
 	}
-	x := &c08Ctx{o: o, c: &c, far: c.Far, failed: map[string]bool{}, maxErr: s1.ChordAngleFromAngle(0.15)}
+	x := &c08Ctx{o: o, c: &c, far: c.Far, failed: map[string]bool{}}
 	x.idx = s2.NewShapeIndex()
 	for _, sh := range c.Shapes {
 		pts := c08Pts(sh.V)
@@ -822,6 +892,10 @@ func opEQ(raw json.RawMessage, o *Out) {
 		ti.Add(&pl)
 		return ti
 	}
+	cellPts := func(id s2.CellID) []s2.Point {
+		c := s2.CellFromCellID(id)
+		return []s2.Point{c.Vertex(0), c.Vertex(1), c.Vertex(2), c.Vertex(3)}
+	}
 	var variants []c08Variant
 	tp := []s2.Point{}
 	if c.Tgt.K != "gctr" {
@@ -830,47 +904,49 @@ func opEQ(raw json.RawMessage, o *Out) {
 	switch c.Tgt.K {
 	case "pt":
 		variants = []c08Variant{
-			{"pt", true, mkPoint(tp[0])},
-			{"edge", true, mkEdge(tp[0], tp[0])},
-			{"idx", true, mkIndex(cloud(tp))},
+			{"pt", true, mkPoint(tp[0]), tp},
+			{"edge", true, mkEdge(tp[0], tp[0]), tp},
+			{"idx", true, mkIndex(cloud(tp)), tp},
 		}
 	case "gctr":
 		v := c.Tgt.V[0]
 		id := emb.FromFaceIJ(v[0], v[1], v[2], v[3])
 		p := id.Point()
 		variants = []c08Variant{
-			{"pt", false, mkPoint(p)},
-			{"cell", false, mkCell(id)},
-			{"idx", false, mkIndex(cloud([]s2.Point{p}))},
-			{"edge", false, mkEdge(p, p)},
+			{"pt", false, mkPoint(p), []s2.Point{p}},
+			{"cell", false, mkCell(id), cellPts(id)},
+			{"idx", false, mkIndex(cloud([]s2.Point{p})), []s2.Point{p}},
+			{"edge", false, mkEdge(p, p), []s2.Point{p}},
 		}
 	case "edge":
 		variants = []c08Variant{
-			{"edge", true, mkEdge(tp[0], tp[1])},
-			{"idx", true, mkIndex(line(tp))},
+			{"edge", true, mkEdge(tp[0], tp[1]), tp},
+			{"idx", true, mkIndex(line(tp)), tp},
 		}
 	case "cloud":
-		variants = []c08Variant{{"idx", true, mkIndex(cloud(tp))}}
+		variants = []c08Variant{{"idx", true, mkIndex(cloud(tp)), tp}}
 	case "pline":
-		variants = []c08Variant{{"idx", true, mkIndex(line(tp))}}
+		variants = []c08Variant{{"idx", true, mkIndex(line(tp)), tp}}
 	case "face":
-		variants = []c08Variant{{"cell", false, mkCell(s2.CellIDFromFace(c.Tgt.F))}}
+		variants = []c08Variant{{"cell", false, mkCell(s2.CellIDFromFace(c.Tgt.F)), cellPts(s2.CellIDFromFace(c.Tgt.F))}}
 	default:
 		panic("c08: unknown target kind " + c.Tgt.K)
 	}
 	for _, v := range variants {
 		// the distance limit "mid": from the model (two lattice points) or, where the model
 		// predicts no distances, a third of the way through the exhaustive scan
-		x.hasMid = false
+		x.hasMid, x.hasNear = false, false
+		all, _ := x.find(v, c08Opts{0, "inf", 0, false}, true)
 		if len(c.Lim) == 2 {
 			x.mid = s2.ChordAngleBetweenPoints(c08Pt(c.Lim[0]), c08Pt(c.Lim[1]))
 			x.hasMid = true
-		} else {
-			all, _ := x.find(v, c08Opts{0, "inf", false, false}, true)
-			if len(all) >= 3 {
-				x.mid = all[len(all)/3].D
-				x.hasMid = x.mid != x.zero()
-			}
+		} else if len(all) >= 3 {
+			x.mid = all[len(all)/3].D
+			x.hasMid = x.mid != x.zero()
+		}
+		if len(all) >= 3 && all[2].D != x.zero() && all[2].D >= 0 && all[2].D <= 4 {
+			x.near = all[2].D
+			x.hasNear = true
 		}
 		x.runVariant(v)
 		o.Count("target_" + v.kind)
